@@ -487,4 +487,133 @@ theorem extract_inv (ns : List AuthRR) : ExtractInv (extractDelegationInfo ns) n
   have := extractFrom_inv ns {} [] ⟨by simp, by simp, by simp, by simp, by simp⟩
   simpa [extractDelegationInfo] using this
 
+/-! ### `NameInZone` (string test) implies the label-wise relation -/
+
+/-- The backslash-run counter of `splitLabels` after reading `p`. -/
+def scanBs (bs : Nat) : Str → Nat
+  | [] => bs
+  | c :: t => scanBs (if c = '\\' then bs + 1 else 0) t
+
+theorem trailingRun_of_all : ∀ (p : Str), p.all (· == '\\') = true → trailingRun p = p.length := by
+  intro p
+  induction p with
+  | nil => intro _; rfl
+  | cons c t ih =>
+    intro h
+    simp only [List.all_cons, Bool.and_eq_true] at h
+    simp only [trailingRun, h.2, if_true, h.1, List.length_cons]
+
+theorem scanBs_eq : ∀ (p : Str) (bs : Nat),
+    scanBs bs p = if p.all (· == '\\') = true then bs + p.length else trailingRun p := by
+  intro p
+  induction p with
+  | nil => intro bs; simp [scanBs]
+  | cons c t ih =>
+    intro bs
+    simp only [scanBs]
+    rw [ih]
+    by_cases ht : t.all (· == '\\') = true
+    · by_cases hc : c = '\\'
+      · subst hc; simp [ht]; omega
+      · have hc' : (c == '\\') = false := by simpa using hc
+        simp [ht, hc, hc', trailingRun]
+    · have ht' : t.all (· == '\\') = false := by simpa using ht
+      simp only [ht', Bool.false_eq_true, if_false, List.all_cons, Bool.and_false, trailingRun]
+
+theorem scanBs_zero (p : Str) : scanBs 0 p = trailingRun p := by
+  rw [scanBs_eq]
+  split
+  · rename_i h; rw [trailingRun_of_all p h]; omega
+  · rfl
+
+/-- A separating dot that is followed by something splits the label list in two. -/
+theorem splitLabels_append_sep : ∀ (a : Str) (bs : Nat) (cur z : Str), z ≠ [] →
+    scanBs bs a % 2 = 0 →
+    splitLabels (a ++ '.' :: z) bs cur = splitLabels (a ++ ['.']) bs cur ++ splitLabels z 0 [] := by
+  intro a
+  induction a with
+  | nil =>
+    intro bs cur z hz hs
+    cases z with
+    | nil => exact absurd rfl hz
+    | cons d rest =>
+      simp only [scanBs] at hs
+      simp [splitLabels, hs]
+  | cons c t ih =>
+    intro bs cur z hz hs
+    simp only [scanBs] at hs
+    cases t with
+    | nil =>
+      -- c :: '.' :: z  versus  c :: ['.']
+      have := ih (if c = '\\' then bs + 1 else 0) (c :: cur) z hz hs
+      simp only [List.nil_append] at this
+      simp only [List.cons_append, List.nil_append, splitLabels]
+      by_cases hsep : c = '.' ∧ bs % 2 = 0
+      · have hc : c ≠ '\\' := by rw [hsep.1]; decide
+        have h0 := ih 0 [] z hz (by simpa [hc] using hs)
+        simp only [List.nil_append] at h0
+        simp [hsep, h0, splitLabels]
+      · simp only [hsep, if_false]
+        exact this
+    | cons d t' =>
+      simp only [List.cons_append, splitLabels]
+      by_cases hsep : c = '.' ∧ bs % 2 = 0
+      · have hc : c ≠ '\\' := by rw [hsep.1]; decide
+        have h0 := ih 0 [] z hz (by simpa [hc] using hs)
+        simp only [List.cons_append] at h0
+        simp [hsep, h0]
+      · simp only [hsep, if_false]
+        have := ih (if c = '\\' then bs + 1 else 0) (c :: cur) z hz hs
+        simpa using this
+
+theorem LabelsEq.refl (a : Name) : LabelsEq a a := rfl
+
+/-- **`dnsutil.NameInZone` is sound for the label-wise relation**: whenever the
+string test accepts, the zone's labels are the trailing labels of the name. -/
+theorem nameInZone_sound (name zone : Str) (hz : zone ≠ [])
+    (h : nameInZone name zone = true) : LabelSuffix (labelsOf zone) (labelsOf name) := by
+  unfold nameInZone at h
+  by_cases hroot : zone = ['.']
+  · subst hroot
+    exact ⟨labelsOf name, [], by simp, by simp [labelsOf, LabelsEq]⟩
+  · simp only [hroot, hz, or_self, if_false] at h
+    by_cases heq : name = zone
+    · subst heq; exact ⟨[], labelsOf name, by simp, LabelsEq.refl _⟩
+    · simp only [heq, if_false] at h
+      by_cases hlen : name.length ≤ zone.length
+      · simp [hlen] at h
+      · simp only [hlen, if_false, Bool.and_eq_true, beq_iff_eq] at h
+        obtain ⟨⟨hdot, hdrop⟩, hpar⟩ := h
+        have hzl : 0 < zone.length := List.length_pos_iff.mpr hz
+        -- name = p ++ '.' :: zone
+        have hcut : name.length - zone.length - 1 < name.length := by omega
+        have hget : name[name.length - zone.length - 1]'hcut = '.' := by
+          rw [List.getD_eq_getElem?_getD, List.getElem?_eq_getElem hcut] at hdot
+          simpa using hdot
+        have hsplit : name = name.take (name.length - zone.length - 1) ++ '.' :: zone := by
+          have h1 : name = name.take (name.length - zone.length - 1) ++
+              name.drop (name.length - zone.length - 1) := (List.take_append_drop _ _).symm
+          have h2 : name.drop (name.length - zone.length - 1) =
+              name[name.length - zone.length - 1] :: name.drop (name.length - zone.length - 1 + 1) :=
+            List.drop_eq_getElem_cons hcut
+          have h3 : name.length - zone.length - 1 + 1 = name.length - zone.length := by omega
+          rw [h3, hdrop, hget] at h2
+          rw [h2] at h1
+          exact h1
+        have hne : name ≠ ['.'] := by
+          intro hn
+          have : name.length = 1 := by rw [hn]; rfl
+          omega
+        have hs : scanBs 0 (name.take (name.length - zone.length - 1)) % 2 = 0 := by
+          rw [scanBs_zero]; exact hpar
+        have := splitLabels_append_sep (name.take (name.length - zone.length - 1)) 0 [] zone hz hs
+        refine ⟨splitLabels (name.take (name.length - zone.length - 1) ++ ['.']) 0 [],
+          splitLabels zone 0 [], ?_, ?_⟩
+        · unfold labelsOf
+          simp only [hne, if_false]
+          rw [← this, ← hsplit]
+        · unfold labelsOf
+          simp only [hroot, if_false]
+          exact LabelsEq.refl _
+
 end SdnsVerif.Lemmas.Bailiwick
